@@ -45,21 +45,21 @@ fn term(s: Decimal, coefficient: Decimal, divisor: Option<Decimal>) -> Option<De
 }
 
 fn gamma(a: Decimal) -> Option<Decimal> {
-    let mut s = Decimal::new(2485740891387535655, 27);
+    let mut s = Decimal::new(2485740891387535655, 23);
     if a < Decimal::new(5, 1) {
-        s = term(s, Decimal::new(1051423785817219742, 20), Decimal::new(1, 0).checked_sub(a))?;
-        s = term(s, Decimal::new(-3456870972220162354, 22), Decimal::new(2, 0).checked_sub(a))?;
-        s = term(s, Decimal::new(4512277094668948237, 20), Decimal::new(3, 0).checked_sub(a))?;
-        s = term(s, Decimal::new(-2982852253235766557, 22), Decimal::new(4, 0).checked_sub(a))?;
-        s = term(s, Decimal::new(1056397115771267131, 22), Decimal::new(5, 0).checked_sub(a))?;
-        s = term(s, Decimal::new(-1954287731916458696, 23), Decimal::new(6, 0).checked_sub(a))?;
-        s = term(s, Decimal::new(1709705434044412243, 24), Decimal::new(7, 0).checked_sub(a))?;
-        s = term(s, Decimal::new(-5719261174043057813, 24), Decimal::new(8, 0).checked_sub(a))?;
-        s = term(s, Decimal::new(4633994733599056367, 28), Decimal::new(9, 0).checked_sub(a))?;
-        s = term(s, Decimal::new(-2719949084886077039, 31), Decimal::new(10, 0).checked_sub(a))?;
+        s = term(s, Decimal::new(1051423785817219742, 18), Decimal::new(1, 0).checked_sub(a))?;
+        s = term(s, Decimal::new(-3456870972220162354, 18), Decimal::new(2, 0).checked_sub(a))?;
+        s = term(s, Decimal::new(4512277094668948237, 18), Decimal::new(3, 0).checked_sub(a))?;
+        s = term(s, Decimal::new(-2982852253235766557, 18), Decimal::new(4, 0).checked_sub(a))?;
+        s = term(s, Decimal::new(1056397115771267131, 18), Decimal::new(5, 0).checked_sub(a))?;
+        s = term(s, Decimal::new(-1954287731916458696, 19), Decimal::new(6, 0).checked_sub(a))?;
+        s = term(s, Decimal::new(1709705434044412243, 20), Decimal::new(7, 0).checked_sub(a))?;
+        s = term(s, Decimal::new(-5719261174043057813, 22), Decimal::new(8, 0).checked_sub(a))?;
+        s = term(s, Decimal::new(4633994733599056367, 24), Decimal::new(9, 0).checked_sub(a))?;
+        s = term(s, Decimal::new(-2719949084886077039, 27), Decimal::new(10, 0).checked_sub(a))?;
         let compute_sin = Decimal::new(3141592653589793238, 18).checked_mul(a)?.checked_sin()?; // 3.14159265358979323846264338327950288419716939937510582
-        let compute_pow = a
-            .checked_sub(Decimal::new(10400511, 6))?
+        let compute_pow = Decimal::new(11400511, 6)
+            .checked_sub(a)?
             .checked_div(Decimal::new(2718281828459045235, 18))?
             .checked_powd(Decimal::new(5, 1).checked_sub(a)?)?;
         Decimal::new(3141592653589793238, 18).checked_div(
@@ -69,16 +69,16 @@ fn gamma(a: Decimal) -> Option<Decimal> {
                 .checked_mul(compute_pow)?,
         )
     } else {
-        s = term(s, Decimal::new(1051423785817219742, 20), Some(a))?;
-        s = term(s, Decimal::new(-3456870972220162354, 22), a.checked_add(Decimal::new(1, 0)))?;
-        s = term(s, Decimal::new(4512277094668948237, 20), a.checked_add(Decimal::new(2, 0)))?;
-        s = term(s, Decimal::new(-2982852253235766557, 22), a.checked_add(Decimal::new(3, 0)))?;
-        s = term(s, Decimal::new(1056397115771267131, 22), a.checked_add(Decimal::new(4, 0)))?;
-        s = term(s, Decimal::new(-1954287731916458696, 23), a.checked_add(Decimal::new(5, 0)))?;
-        s = term(s, Decimal::new(1709705434044412243, 24), a.checked_add(Decimal::new(6, 0)))?;
-        s = term(s, Decimal::new(-5719261174043057813, 24), a.checked_add(Decimal::new(7, 0)))?;
-        s = term(s, Decimal::new(4633994733599056367, 28), a.checked_add(Decimal::new(8, 0)))?;
-        s = term(s, Decimal::new(-2719949084886077039, 31), a.checked_add(Decimal::new(9, 0)))?;
+        s = term(s, Decimal::new(1051423785817219742, 18), Some(a))?;
+        s = term(s, Decimal::new(-3456870972220162354, 18), a.checked_add(Decimal::new(1, 0)))?;
+        s = term(s, Decimal::new(4512277094668948237, 18), a.checked_add(Decimal::new(2, 0)))?;
+        s = term(s, Decimal::new(-2982852253235766557, 18), a.checked_add(Decimal::new(3, 0)))?;
+        s = term(s, Decimal::new(1056397115771267131, 18), a.checked_add(Decimal::new(4, 0)))?;
+        s = term(s, Decimal::new(-1954287731916458696, 19), a.checked_add(Decimal::new(5, 0)))?;
+        s = term(s, Decimal::new(1709705434044412243, 20), a.checked_add(Decimal::new(6, 0)))?;
+        s = term(s, Decimal::new(-5719261174043057813, 22), a.checked_add(Decimal::new(7, 0)))?;
+        s = term(s, Decimal::new(4633994733599056367, 24), a.checked_add(Decimal::new(8, 0)))?;
+        s = term(s, Decimal::new(-2719949084886077039, 27), a.checked_add(Decimal::new(9, 0)))?;
         let compute_pow = a
             .checked_add(Decimal::new(10400511, 6))?
             .checked_div(Decimal::new(2718281828459045235, 18))?
